@@ -13,6 +13,7 @@ def configs(tier):
         ('two recurring names with different multiplicities (names family, three branches)', dict(family='names', fam_kw=dict(shape='three_branches', names=('item', 'meta', 'x')))),
         ('prefixed and unprefixed children/attributes with the same local name 2occ x 2slots', dict(family='one_level', fam_kw=dict(occ=2, slots=2, attrs=1, text=False, leaf_form=False, p_form=False, names=['link', 'atom:link'], anames=['id', 'x:id']))),
         ('prefixed and unprefixed attributes with the same local name 2occ x 2 attribute slots', dict(family='one_level', fam_kw=dict(occ=2, slots=0, attrs=2, text=False, leaf_form=False, p_form=False, anames=['id', 'x:id']))),
+        ('names whose PascalCase form changes when converted twice (a_b -> AB -> Ab) next to ab (names family, three branches)', dict(family='names', fam_kw=dict(shape='three_branches', names=('a_b', 'ab', 'x')))),
         ('attributes + children collide 2occ', dict(family='one_level', fam_kw=dict(occ=2, slots=1, attrs=1, text=True, leaf_form=False, p_form=False, names=['a', 'foo'], anames=['a', 'foo']))),
     ]
     if tier == 'quick': return q
@@ -33,7 +34,7 @@ def main():
     ]
     if c.setup():
         for label, kw in configs(c.tier):
-            c.run(label, 'rsym.hr', 'Determinism', kw, required_witnesses=('several iteration orders explored',), time_cap=200 if c.tier == 'quick' else 900)
+            c.run(label, 'rsym.hr', 'Determinism', kw, required_witnesses=('several iteration orders explored',), time_cap=600 if c.tier == 'quick' else 900)
     c.finish(bounds={'skeletons': [l for l, _ in configs(c.tier)], 'map_entries': '<= 4 per HashMap', 'names': 'adversarial alphabets: %s, %s' % (COLL, COLL2)},
              outside=['documents outside the skeletons', 'threads / processes as such (the replay runs fresh hash seeds natively only for counterexamples)'],
              trusted=['rsym + HashMap contract model', 'z3', 'tools/replay'],
